@@ -225,8 +225,8 @@ def run(ck: core.Check):
         hist = lh.gen_history(rng, prog, rng.randrange(2, 9))
         hcases.append({"prog": prog, "hist": hist, "ref": ref, "salt": rng.randrange(0, 200)})
     inproc = []
-    # (quick: all histories are generated - the later phases draw from the same PRNG - the first 560 are run)
-    for c in hcases[: ck.pick(900 if changed else 560, len(hcases))]:
+    # (quick: all histories are generated - the later phases draw from the same PRNG - the first 480 are run)
+    for c in hcases[: ck.pick(900 if changed else 480, len(hcases))]:
         try:
             r = lh.run_case(c["prog"], c["hist"], c["ref"])
         except Exception as e:  # noqa: BLE001 - observation machinery, not a verdict
@@ -287,6 +287,14 @@ def run(ck: core.Check):
     fresh_cases = [{"prog": c["prog"], "hist": [], "ref": c["ref"], "salt": c["salt"]} for c in sub]
     for c in sub[: ck.pick(25, 100)]:  # a few complete histories too
         fresh_cases.append({"prog": c["prog"], "hist": c["hist"], "ref": c["ref"], "salt": c["salt"] + 7})
+    # long generated names (If nested 5-7 deep, inlined models with 150-character internal names): whatever spox
+    # does to long names must not depend on the interpreter's string-hash salt
+    n_long = 0
+    for _ in range(ck.pick(10, 60)):
+        lp, lreq = lf.gen_long_name_program(rng)
+        fresh_cases.append({"prog": lp, "hist": [], "ref": lreq, "salt": rng.randrange(0, 50)})
+        n_long += 1
+    stats["long_name_programs"] = n_long
     results = c03.run_fresh(ck, fresh_cases, hashseeds, "c12")
     by_case = {}
     for hs, res in results.items():
